@@ -1101,6 +1101,13 @@ def rule_initialisable(chk, prog, tier):
              ('fam', ('list', [e(0)]), 4), ('fam', ('list', [e(0), ((), ('str', 3, 1, 'v1'))]), False), ('fam', ('list', [e(0), ((), ('list', [e(1)]))]), False), ('fam', ('list', [((('.', 's'),), ('list', [e(1)]))]), False),
              ('fam', ('list', [e(0), e(1)]), False),('int[n]', ('list', [e(0)]), False), ('int[n]', ('list', [e(0), e(1)]), False), ('int[2][n]', ('list', [e(0)]), False), ('int(*[])[n]', ('list', [e(0), e(1)]), 16), ('int(*[3])[n]', ('list', [e(0)]), 24),
              ('int[]', ('list', [e(0), e(1), e(2)]), 12), ('int[3]', ('list', [e(0)]), 12), ('int[]', ('list', []), False)]
+    # index designators are range-checked on the index, not on the byte offset (index * element size wraps around for indices >= 2^64 / size)
+    L = scalar('long'); T['long[3]'] = array(L, 3); T['long[]'] = array(L, None); T['char[3]'] = array(C, 3)
+    big = lambda i, k=0: ((('[', i),), ('e', 'v%d' % k))
+    for tn_, esz in (('int[3]', 4), ('long[3]', 8), ('char[3]', 1)):
+        CASES += [(tn_, ('list', [big(2)]), 3 * esz), (tn_, ('list', [big(3)]), False), (tn_, ('list', [big(2 ** 63)]), False), (tn_, ('list', [big(2 ** 64 - 1)]), False)] + ([(tn_, ('list', [big(2 ** 64 // esz)]), False), (tn_, ('list', [big(2 ** 64 // esz + 1)]), False)] if esz > 1 else [])
+    for tn_, esz in (('int[]', 4), ('long[]', 8)):
+        CASES += [(tn_, ('list', [big(5)]), 6 * esz), (tn_, ('list', [big(2 ** 64 // esz)]), False), (tn_, ('list', [big(2 ** 64 // esz + 1), e(1)]), False), (tn_, ('list', [big(2 ** 64 // esz - 1)]), False)]     # the last: (index + 1) * size does not fit
     for tn, item, want in CASES:
         outcome, val = run_parseinit(prog, fn, T, tn, item)
         key = 'initialisable:%s=%s' % (tn, text_of(item))
